@@ -84,6 +84,17 @@ BigNext == steps < MaxSteps /\
   \/ ApiSubscribe(L1, <<"a">>, 1)
 BigSpec == BothUp({<<"a">>}) /\ [][BigNext]_vars
 
+(* C01, subscriptions of different clients on filters that share leading levels (an implementation that keeps them in a
+   tree creates and prunes nodes on the shared path): every history of subscribing, unsubscribing and a client's
+   connection being cut, observed by one probe publish at the end                                                   *)
+PathFilters == {<<"a","b">>, <<"a","+">>, <<"a","b","c">>}
+PathMut == \/ \E c \in {c1, c2}, f \in PathFilters : Subscribe(c, 1, << <<f, 1>> >>)
+           \/ \E c \in {c1, c2}, f \in PathFilters : Unsubscribe(c, 2, <<f>>)
+           \/ End(c2, "cut")
+PathLastNext == steps < MaxSteps /\
+  IF steps < MaxSteps - 1 THEN PathMut ELSE \E t \in {<<"a","b">>, <<"a","b","c">>} : ApiPublish(t, 1, FALSE, "x")
+PathLastSpec == BothUp({<<"a","b">>, <<"a","b","c">>}) /\ [][PathLastNext]_vars
+
 (* C02 receiver side of QoS 1/2: publisher c1, witness c2 subscribed to '#' at QoS 2;
    big QoS 0 filler traffic wraps the 16 KiB ring between PUBLISH and PUBREL          *)
 QNames == {<<"a">>, <<"z">>}
@@ -227,9 +238,11 @@ Sess1Spec == SessInit /\ [][Sess1Next]_vars
 \* in another), observed by one probe publish at the end
 Sess1Mut == \/ \E cl \in BOOLEAN : Connect(c1, k1, cl, NoWill)
             \/ Subscribe(c1, 1, << <<<<"a">>, 1>> >>)
+            \* a request whose first filter is rejected: what the session keeps is what was granted, filter by filter
+            \/ Subscribe(c1, 1, << <<<<"a","#","x">>, 0>>, <<<<"a">>, 0>>, <<<<"b">>, 1>> >>)
             \/ Unsubscribe(c1, 2, << <<"a">> >>)
             \/ \E how \in {"disconnect", "cut"} : End(c1, how)
-Sess1LastNext == steps < MaxSteps /\ IF steps < MaxSteps - 1 THEN Sess1Mut ELSE ApiPublish(<<"a">>, 1, FALSE, "x")
+Sess1LastNext == steps < MaxSteps /\ IF steps < MaxSteps - 1 THEN Sess1Mut ELSE \E t \in ENames : ApiPublish(t, 1, FALSE, "x")
 Sess1LastSpec == SessInit /\ [][Sess1LastNext]_vars
 
 (* C11 first packets: every way of being refused, followed by packets on the refused connection;
